@@ -1,7 +1,90 @@
-(* C04 - placeholder theorem until the forging proofs land. *)
-From Coq Require Import QArith Qabs.
-From BB Require Import Base.Num.
-Theorem C04_nearest_round : forall N SR t n,
-  0 < SR -> (n < N)%nat -> Qabs (t * SR - inject_Z (Z.of_nat n)) < 1#2 -> nearest N SR t = n.
-Proof. exact nearest_round. Qed.
-Print Assumptions C04_nearest_round.
+(* C04 - waituntil pads with zeros so that the next segment starts at the stated time.
+   Only statements; every proof is `exact <lemma>` into Proofs/WaitFacts.v. *)
+From Coq Require Import List ZArith QArith Qabs Bool.
+From BB Require Import Base.Num Base.PyList Model.Types Model.Blueprint Model.Forge Proofs.WaitFacts.
+Import ListNotations.
+Open Scope Q_scope.
+
+(* a waituntil(w) segment ends exactly at absolute time w: elapsed time up to and including it is w *)
+Theorem C04_wait_ends_at_target : forall fs ars ds el rs p w rest,
+  length ars = length fs -> length ds = length fs ->
+  resolve_waits_aux fs ars ds (Some el) = Ok rs ->
+  nth_error fs p = Some Fwait -> nth_error ars p = Some (VNum w :: rest) ->
+  el + sumQ (firstn (S p) rs) == w.
+Proof. exact wait_ends_at_target. Qed.
+
+(* resolution only rewrites the waituntil entries *)
+Theorem C04_resolution_frame : forall fs ars ds el rs,
+  length ars = length fs -> length ds = length fs ->
+  resolve_waits_aux fs ars ds (Some el) = Ok rs ->
+  length rs = length fs /\
+  forall j f, nth_error fs j = Some f -> fn_eqb f Fwait = false -> nth_error rs j = nth_error ds j.
+Proof. exact resolution_frame. Qed.
+
+(* alignment: if everything before the wait is a whole number of samples and the target is not at a
+   rounding tie, the segment after the wait starts at sample round(w*SR) - for any number of waits *)
+Theorem C04_alignment : forall SR fs ars ds rs ns p w rest k,
+  0 < SR -> length ars = length fs -> length ds = length fs ->
+  resolve_waits_aux fs ars ds (Some 0) = Ok rs -> int_durs SR rs = Ok ns ->
+  nth_error fs p = Some Fwait -> nth_error ars p = Some (VNum w :: rest) ->
+  (forall j v, (j < p)%nat -> nth_error rs j = Some v -> whole_samples SR v) ->
+  Qabs (w * SR - inject_Z k) < 1 # 2 ->
+  sumZ (firstn (S p) ns) = k.
+Proof. exact wait_alignment. Qed.
+
+(* ... no matter how the preceding durations are later changed, as long as they stay whole samples *)
+Theorem C04_stable : forall SR fs ars ds ds' rs rs' ns ns' p w rest k,
+  0 < SR -> length ars = length fs -> length ds = length fs -> length ds' = length fs ->
+  resolve_waits_aux fs ars ds (Some 0) = Ok rs -> int_durs SR rs = Ok ns ->
+  resolve_waits_aux fs ars ds' (Some 0) = Ok rs' -> int_durs SR rs' = Ok ns' ->
+  nth_error fs p = Some Fwait -> nth_error ars p = Some (VNum w :: rest) ->
+  (forall j v, (j < p)%nat -> nth_error rs j = Some v -> whole_samples SR v) ->
+  (forall j v, (j < p)%nat -> nth_error rs' j = Some v -> whole_samples SR v) ->
+  Qabs (w * SR - inject_Z k) < 1 # 2 ->
+  sumZ (firstn (S p) ns) = sumZ (firstn (S p) ns').
+Proof. exact wait_stable. Qed.
+
+(* overrun: preceding segments extending beyond the target make resolution fail with ValueError ... *)
+Theorem C04_overrun_detected : forall fs ars ds el p w rest,
+  length ars = length fs -> length ds = length fs ->
+  nth_error fs p = Some Fwait -> nth_error ars p = Some (VNum w :: rest) ->
+  (forall j, (j < p)%nat -> nth_error fs j <> Some Fwait) ->
+  (forall j, (j < p)%nat -> exists q, nth_error ds j = Some (VNum q)) ->
+  w < el + sumQ (firstn p ds) ->
+  resolve_waits_aux fs ars ds (Some el) = Err EValue.
+Proof. exact overrun_detected. Qed.
+
+(* ... and then forging, duration and points all raise that error instead of producing output *)
+Theorem C04_overrun_everywhere : forall b SR e,
+  resolve_waits b = Err e ->
+  forge_bp_with b SR (durs b) = Err e /\
+  (has_wait b = true -> bp_duration b = Err e /\ forall s, sr b = VNum s -> bp_points b = Err e).
+Proof. exact overrun_everywhere. Qed.
+
+(* duration and points include the filled time *)
+Theorem C04_duration_includes_fill : forall b rs,
+  has_wait b = true -> resolve_waits b = Ok rs -> bp_duration b = sum_vals rs.
+Proof. exact duration_includes_fill. Qed.
+
+Theorem C04_points_equal_forged_length : forall SR rs ns d,
+  0 < SR -> int_durs SR rs = Ok ns -> sum_vals rs = Ok d -> Forall (whole_samples SR) rs ->
+  rnd (d * SR) = sumZ ns.
+Proof. exact points_equal_length. Qed.
+
+(* non-vacuity: two waits, aligned preceding segments; second segment after a wait starts at sample 50 *)
+Example C04_example :
+  let fs := [Fua; Fwait; Fua; Fua; Fwait; Fua] in
+  let ars := [[VNum 1]; [VNum (20 # 100)]; [VNum 2]; [VNum 3]; [VNum (1 # 2)]; [VNum 4]] in
+  let ds := [VNum (5 # 100); VNone; VNum (3 # 100); VNum (7 # 100); VNone; VNum (2 # 100)] in
+  exists rs ns, resolve_waits_aux fs ars ds (Some 0) = Ok rs /\ int_durs 100 rs = Ok ns /\
+                ns = [5; 15; 3; 7; 20; 2]%Z /\ sumZ (firstn 5 ns) = 50%Z.
+Proof. exact waits_example. Qed.
+
+Print Assumptions C04_wait_ends_at_target.
+Print Assumptions C04_resolution_frame.
+Print Assumptions C04_alignment.
+Print Assumptions C04_stable.
+Print Assumptions C04_overrun_detected.
+Print Assumptions C04_overrun_everywhere.
+Print Assumptions C04_duration_includes_fill.
+Print Assumptions C04_points_equal_forged_length.
